@@ -7,12 +7,14 @@
    list as tuples <<k, a, b>>. *)
 EXTENDS HistoryGenLib, Json, IOUtils
 Cases == {[par |-> x[1], t |-> x[2], others |-> SetToSeq(OthersOf(x[1], x[2]))] : x \in Branches}
+\* one initial state per graph (cheap), its cases as successor states: TLC's workers share the law evaluation
 VARIABLE c
-Init == c \in Cases
-Next == UNCHANGED c
+Init == c \in {[par |-> P, t |-> -1] : P \in Graphs2}
+Next == c.t = -1 /\ c' \in {[par |-> c.par, t |-> t, others |-> SetToSeq(OthersOf(c.par, t))] : t \in TipsOf(c.par)}
+IsCase == c.t # -1
 Specs(x) == SpecsOf(x.par, x.t, SeqRange(x.others))
 M(x, sp) == Meaning(x.par, x.t, sp)
-LawsHoldOnSpec ==
+LawsHoldOnSpec == IsCase =>
     LET P == c.par
         n == RevnoOf(P, c.t)
         lh == LeftHand(P, c.t)
@@ -22,12 +24,17 @@ LawsHoldOnSpec ==
        /\ \A a \in 1..n : M(c, Spec("mainline", lh[a], "")) = {lh[a]}
        /\ \A r \in Anc0(P, c.t) : LET m == M(c, Spec("mainline", r, ""))
                                   IN \A x \in m : x \in SeqRange(lh) /\ r \in Anc0(P, x)
-       /\ \A s \in SeqRange(c.others) : \A x \in M(c, Spec("ancestor", s, "")) \ {ERR} : x \in Anc0(P, c.t) \cap Anc0(P, s)
+       /\ \A s \in SeqRange(c.others) : \A x \in M(c, Spec("ancestor", s, "")) \ {ERR} : x \in AncG(P, c.t) \cap AncG(P, s)
        /\ \A s \in SeqRange(c.others) : (s # Null /\ s \in Anc0(P, c.t)) => M(c, Spec("ancestor", s, "")) = {s}
-WitnessCrissCross == ~(\E s \in SeqRange(c.others) : Cardinality(M(c, Spec("ancestor", s, ""))) > 1)
-WitnessMergedMerge == ~(\E r \in Anc0(c.par, c.t) \ LeftSet(c.par, c.t) : IsMerge(c.par, r))
+WCrissCross(x) == \E s \in SeqRange(x.others) : Cardinality(M(x, Spec("ancestor", s, ""))) > 1
+WMergedMerge(x) == \E r \in Anc0(x.par, x.t) \ LeftSet(x.par, x.t) : IsMerge(x.par, r)
 SpecTuple(sp) == <<sp.k, sp.a, sp.b>>
 CaseRow(x) == [c |-> x, specs |-> SetToSeq({SpecTuple(sp) : sp \in Specs(x)})]
+\* anti-vacuity: each of these must be reached by some case (checked in the export run: VF_WITNESSES)
+WitnessesReached ==
+    /\ \E x \in Cases : WCrissCross(x)
+    /\ \E x \in Cases : WMergedMerge(x)
 Export == JsonSerialize(IOEnv.VF_OUT, SetToSeq({CaseRow(x) : x \in Sample(Cases)}))
 ASSUME IF "VF_OUT" \in DOMAIN IOEnv THEN Export ELSE TRUE
+ASSUME IF "VF_WITNESSES" \in DOMAIN IOEnv THEN WitnessesReached ELSE TRUE
 =============================================================================
